@@ -369,6 +369,9 @@ class LiveTable:
                 d["resolver"] = ("cls", s.cls.mod.name, s.cls.name, s.attr)
             elif s.kind == "KInstAttr":
                 d["resolver"] = ("inst", [(h.cls.mod.name, h.cls.name, h.attr) for h in s.holders], s.attr)
+            elif s.kind == "KDefaultArg" and s.owner is not None and s.owner.parent is None:
+                f = s.owner
+                d["resolver"] = ("default", f.mod.name, (f.cls.name if f.cls is not None else None), f.name, s.attr)
             elif s.kind == "KClosure" and "." in s.extra.get("app", ""):
                 cn, pn = s.extra["app"].split(".", 1)
                 c = db.classes.get(cn)
@@ -421,6 +424,15 @@ def _resolve(d):
         if r[0] == "closure":
             m = importlib.import_module(r[1])
             return [("closure", getattr(m, r[2]), r[3], r[4])]
+        if r[0] == "default":
+            import inspect
+            m = importlib.import_module(r[1])
+            holder = getattr(m, r[2]) if r[2] else m
+            fn = holder.__dict__.get(r[3]) if r[2] else getattr(m, r[3])
+            fn = getattr(fn, "__func__", fn)
+            fn = getattr(fn, "fget", fn)
+            sig = inspect.signature(fn)
+            return [("value", sig.parameters[r[4]].default)]
     except Exception:
         return None
     return None
@@ -440,6 +452,8 @@ def site_values(d):
                 vals.append(o.__dict__.get(loc[2], getattr(o, loc[2], ABSENT)))
             else:
                 vals.append(getattr(o, "__dict__", {}).get(loc[2], ABSENT))
+        elif loc[0] == "value":
+            vals.append(loc[1])
         else:
             vals.append(closure_cell(loc[1], loc[2], loc[3]))
     return vals
@@ -482,6 +496,8 @@ def poison_sites(only_ids=None):
         if not locs:
             continue
         for loc in locs:
+            if loc[0] not in ("mod", "attr"):
+                continue
             if loc[0] == "mod":
                 holder, attr = loc[1], loc[2]
                 cur = getattr(holder, attr, ABSENT)
@@ -703,6 +719,19 @@ class Scenario:
                 ED.apply(hc, st["e"])
                 return sha(write_bytes(C, self.dir, "Acopy.i", st.get("version", (6, 2, 0))))
             return self.guarded("A.copyedit", f)
+        if k == "copykeep":
+            def f():
+                self.kept = (pickle.loads(pickle.dumps(pr)) if st.get("how") == "pickle" else copy.deepcopy(pr))
+                self.kept_bytes = write_bytes(self.kept, self.dir, "Akept.i", st.get("version", (6, 2, 0)))
+                return sha(self.kept_bytes)
+            return self.guarded("A.copykeep", f)
+        if k == "copycheck":
+            def f():
+                if getattr(self, "kept", None) is None:
+                    return "nocopy"
+                b = write_bytes(self.kept, self.dir, "Akept.i", st.get("version", (6, 2, 0)))
+                return "stable" if b == self.kept_bytes else "COPY-CHANGED"
+            return self.guarded("A.copycheck", f)
         if k == "pickle":
             def f():
                 C = pickle.loads(pickle.dumps(pr))
@@ -896,6 +925,11 @@ def gen_case(rng, latch_props, latch_rate=0.15):
             extras.append({"s": "observe"})
     for x in extras:
         steps.insert(rng.randint(0, len(steps)), x)
+    if rng.random() < 0.3:
+        # a copy taken early must not change when the original is edited afterwards
+        v = list(rng.choice(VERSIONS))
+        steps.insert(0, {"s": "copykeep", "how": rng.choice(["deepcopy", "deepcopy", "pickle"]), "version": v})
+        steps.append({"s": "copycheck", "version": v})
     # reading = constructing the problem, then parsing it: sometimes with unrelated operations in between
     steps = ([{"s": "read"}] if rng.random() < 0.7 else [{"s": "construct"}, {"s": "parse"}]) + steps
     if rng.random() < 0.5:
@@ -1347,10 +1381,18 @@ def replay(ctx, path):
     c = case.get("case", case)
     check_montepy_path()
     set_table()
-    kind = c.get("kind")
+    kind = case.get("kind") or c.get("kind")
+    if kind in ("setter-history", "latch"):
+        c = case
     bad = None
     if kind == "history":
-        bad = history_fails(c, c.get("arm", "noisy"))
+        bad = history_fails(c, case.get("arm", "noisy"))
+    elif kind == "copy-affected":
+        r = fork_map(run_scenario, [(c, "base")])[0]
+        bad = {"outcomes": r.get("outcomes")} if "COPY-CHANGED" in (r.get("outcomes") or []) or "__crash__" in r else None
+    elif kind == "read-residue":
+        a, b = fork_map(real_readq, [(dict(c, residue_q=[], residue_log=0),), (c,)])
+        bad = None if a.get("result") == b.get("result") else {"fresh": a, "with_residue": b}
     elif kind == "setter-history":
         a, b = fork_map(real_setter, [(dict(c, hist=[]),), (c,)])
         bad = None if a.get("call") == b.get("call") else {"alone": a, "after_history": b}
@@ -1386,6 +1428,14 @@ def run(ctx):
                                        "detail": f"{type(e).__name__}: {e}"[:800]})
         return ctx.finish(vlib.KERNEL_TB, [], "translator failed")
     facts = table_facts(res)
+    try:
+        import translate_globals as TG
+        st_bad = TG.selftest()
+    except Exception as e:
+        st_bad = [{"error": f"{type(e).__name__}: {e}"[:300]}]
+    if st_bad:
+        ctx.broken_obligations.append({"obligation": "translator self-test (synthetic package with one instance of every "
+                                       "leak shape and every harmless shape)", "detail": st_bad[:4]})
     timing["translate"] = round(time.time() - t0, 1)
     # ---- 1. proofs
     t1 = time.time()
@@ -1606,6 +1656,8 @@ def run(ctx):
         if "__crash__" not in p:
             hd["poisoned_sites"] |= set(p["poisoned"])
         ctx.cov["disagreements_checked"] += 1
+        if "__crash__" not in b and "COPY-CHANGED" in b["outcomes"]:
+            ctx.fail({"kind": "copy-affected", "case": c, "outcomes": b["outcomes"]})
         for arm, o in (("monitor", m), ("poison", p)):
             d = compare_arms(b, o)
             if d is None:
